@@ -98,9 +98,26 @@ pub fn probe(r: &mut Runner, _step: &Step) {
         }
         // reference liquidation ratio from queries and the feed price
         let spot_n = qw;
-        let twap = match w.q(&va, json!({"output_twap": {"direction": pos.dir.js(), "amount": sz.to_string()}})) {
-            Ok(x) => pu(&x),
-            Err(_) => {
+        // the 15-minute TWAP of the closing notional: the harness's own (from its per-block record of the reserves)
+        // when it can be computed, else the vAMM's answer
+        let twap_own = r.model.prices.get(v).map(|recs| super::engine_refs::twap_output_ref(recs, pos.dir, sz, 900, r.obs.time, vo.decimals.max(1))).unwrap_or(super::engine_refs::TwapRef::Unknown);
+        let twap_q = w.q(&va, json!({"output_twap": {"direction": pos.dir.js(), "amount": sz.to_string()}})).ok().map(|x| pu(&x));
+        // None: the TWAP valuation is unbounded (a record of the window cannot fill the trade) - spot is the smaller one
+        let twap: Option<U> = match (twap_own, twap_q) {
+            (super::engine_refs::TwapRef::Value(a), Some(b)) => {
+                r.ev.count(if a == b { "twap15_reference_equals_vamm_answer" } else { "twap15_reference_differs_from_vamm_answer" });
+                Some(a)
+            }
+            (super::engine_refs::TwapRef::Value(a), None) => {
+                r.ev.count("twap15_vamm_query_failed_reference_available");
+                Some(a)
+            }
+            (super::engine_refs::TwapRef::Unbounded, _) => {
+                r.ev.count("twap15_unbounded_spot_binding");
+                None
+            }
+            (super::engine_refs::TwapRef::Unknown, Some(b)) => Some(b),
+            (super::engine_refs::TwapRef::Unknown, None) => {
                 r.ev.count("skip/twap_unavailable");
                 continue;
             }
@@ -109,11 +126,20 @@ pub fn probe(r: &mut Runner, _step: &Step) {
             Some(x) => x,
             None => continue,
         };
-        let (sp, tp) = match (pnl(pos.dir, spot_n, pos.notional), pnl(pos.dir, twap, pos.notional)) {
-            (Some(a), Some(b)) => (a, b),
-            _ => continue,
+        let sp = match pnl(pos.dir, spot_n, pos.notional) {
+            Some(a) => a,
+            None => continue,
         };
-        let (n_sel, p_sel) = if sp.unsigned_abs() > tp.unsigned_abs() { (twap, tp) } else { (spot_n, sp) };
+        let (n_sel, p_sel) = match twap {
+            Some(tw) => {
+                let tp = match pnl(pos.dir, tw, pos.notional) {
+                    Some(b) => b,
+                    None => continue,
+                };
+                if sp.unsigned_abs() > tp.unsigned_abs() { (tw, tp) } else { (spot_n, sp) }
+            }
+            None => (spot_n, sp),
+        };
         let mut rl = match ratio(pos.margin, p_sel, f, n_sel, d) {
             Some(x) => x,
             None => continue,
@@ -181,7 +207,7 @@ pub fn probe(r: &mut Runner, _step: &Step) {
                 // identified by failing call site: error class x liquidation path (x vault state for transfer failures)
                 let q_path = if partial_path { qp } else { qw };
                 let fee_zero = mul_div(q_path, eng.liq_fee, d).unwrap_or(0) / 2 == 0;
-                let oracle_notional_zero = mul_div(feed_price, sz, d).unwrap_or(0) == 0 || twap == 0;
+                let oracle_notional_zero = mul_div(feed_price, sz, d).unwrap_or(0) == 0 || twap == Some(0);
                 let path = if partial_path { "partial_path" } else { "full_path" };
                 // full path: bad debt exactly equal to the prepaid amount makes the engine ask the fund for zero tokens
                 let half = mul_div(qw, eng.liq_fee, d).unwrap_or(0) / 2;
